@@ -238,7 +238,7 @@ def iterpath(obj, path=None):
             for item in iterpath(varobj, path):
                 yield item
 
-        elif isinstance(varobj, list):
+        elif isinstance(varobj, (list, tuple)):
 
             for item in _iterpath_list(varobj, path):
                 yield item
@@ -258,7 +258,7 @@ def _iterpath_list(values, path):
             for descendant in iterpath(item, path):
                 yield descendant
 
-        elif isinstance(item, list):
+        elif isinstance(item, (list, tuple)):
             for descendant in _iterpath_list(item, path):
                 yield descendant
 
